@@ -3,7 +3,7 @@
    sequence of API calls with any callback answers ([Reach]), every further call and every script:
    (s, c) in tr means callback c was made in node state s. *)
 From Coq Require Import ZArith List.
-From DbftV Require Import Gates.
+From DbftV Require Import Gates NoPanic.
 Open Scope Z_scope.
 
 (* a PrepareResponse is broadcast only while every transaction of the proposal is held, and it names the hash of the
@@ -33,3 +33,12 @@ Theorem precommit_only_on_preparation_quorum cfg st ev sc st' tr s p :
   (hasAllTransactions s = true /\ Mq s <= count_view (ViewNumber s) (PreparationPayloads s) /\ existsb is_req (PreparationPayloads s) = true).
 Proof. exact (precommit_gate cfg st ev sc st' tr s p). Qed.
 Print Assumptions precommit_only_on_preparation_quorum.
+
+(* the node is in a view v > 0 only while holding - in LastChangeViewPayloads, the requests kept when it entered the view -
+   change-view requests for v or above from at least M distinct validators (one slot per validator).
+   Every state reached by Start on a fresh instance followed by any well-formed API calls, any callback answers. *)
+Theorem higher_view_only_on_M_change_view_requests cfg st :
+  cfg_inc cfg <> 0 -> Started cfg st -> 0 < ViewNumber st ->
+  Mq st <= count (fun o => match o with Some p => cv_newview p >=? ViewNumber st | None => false end) (LastChangeViewPayloads st).
+Proof. exact (fun Hi HS => sz_vi st (started_sized cfg Hi st HS)). Qed.
+Print Assumptions higher_view_only_on_M_change_view_requests.
